@@ -28,6 +28,10 @@ from . import import_repo
 MUTATING = ('mkdir', 'makedirs', 'rename', 'replace', 'rmdir',
             'gzopen_w', 'gzwrite', 'gzclose', 'mkdtemp')
 
+# After the root function returned, only moving the old cache file aside and
+# writing the new one are still "before the commit".
+CACHE_WRITE_KINDS = ('makedirs', 'rename', 'gzopen_w', 'gzwrite', 'gzclose')
+
 ERRNOS = {
     'ENOSPC': _errno.ENOSPC, 'EACCES': _errno.EACCES, 'EIO': _errno.EIO,
     'EXDEV': _errno.EXDEV, 'ENAMETOOLONG': _errno.ENAMETOOLONG,
@@ -86,7 +90,8 @@ class Sim:
         if self.log_io:
             self.io_log.append(
                 (kind, self.sandbox.rel(path) if self.sandbox else path))
-        if kind in MUTATING and self.phase == 'build':
+        if kind in MUTATING and (self.phase == 'build' or (
+                self.phase == 'cachewrite' and kind in CACHE_WRITE_KINDS)):
             idx = self.n_mut
             self.n_mut += 1
             self.mut_log.append(
@@ -187,7 +192,7 @@ class _GzWriter:
         f = self._sim.fault
         if (f is not None and f.get('kind') == 'torn' and
                 self._sim.fault_fired is None and
-                self._sim.phase == 'build'):
+                self._sim.phase in ('build', 'cachewrite')):
             n = int(len(data) * f.get('frac', 0.5))
             self._real.write(data[:n])
             self._sim.fault_fired = {
@@ -203,6 +208,8 @@ class _GzWriter:
         self._real.close()
         if exc[0] is None:
             self._sim.io('gzclose', self._path)
+            if self._sim.phase == 'cachewrite':
+                self._sim.phase = 'commit'
         return False
 
     def close(self):
